@@ -212,6 +212,10 @@ func (lam *Lambda) BoundCall(s *Scope, depth int) (result Object) {
 			}
 			break
 		}
+		if _, ok := result.(*GoTo); ok {
+			// A go to a tag of a tagbody around the function.
+			break
+		}
 	}
 	return
 }
